@@ -30,6 +30,9 @@ enum Node {
     List(Vec<usize>),
     Concat(usize, usize),
     Bytes(Vec<u8>),
+    /// a list whose items are created between start_list and end_list (the header lies below its items, as in a list the
+    /// runtime makes by casting a text): the item numbers
+    FreshList(Vec<i32>),
     /// a symbol list (key path) of these raw symbols
     SymList(Vec<u64>),
 }
@@ -80,7 +83,13 @@ fn gen_nodes(t: &mut Tape, n: usize) -> Vec<Node> {
                         Node::List((0..k).map(|_| pick(t, i)).collect())
                     }
                 }
-                7 => Node::Concat(pick(t, i), pick(t, i)),
+                7 => {
+                    if t.chance(60) {
+                        Node::FreshList((0..t.choose(4)).map(|k| 70 + k as i32).collect())
+                    } else {
+                        Node::Concat(pick(t, i), pick(t, i))
+                    }
+                }
                 8 => {
                     if t.chance(100) {
                         let k = [2usize, 2, 3, 5][t.choose(4)];
@@ -126,6 +135,14 @@ fn build_graph(d: &mut B, nodes: &[Node]) -> Result<Graph, String> {
                     l = d.add_to_list(l, g.addrs[*i]).map_err(e)?;
                 }
                 (d.end_list(l).map_err(e)?, V::List(items.iter().map(|i| g.values[*i].clone()).collect()))
+            }
+            Node::FreshList(nums) => {
+                let mut l = d.start_list(nums.len()).map_err(e)?;
+                for x in nums {
+                    let a = d.add_number(SimpleNumber::Integer(*x)).map_err(e)?;
+                    l = d.add_to_list(l, a).map_err(e)?;
+                }
+                (d.end_list(l).map_err(e)?, V::List(nums.iter().map(|x| V::Int(*x)).collect()))
             }
             Node::SymList(syms) => {
                 let mut acc = d.add_symbol(syms[0]).map_err(e)?;
@@ -271,6 +288,15 @@ fn judge_graph(t: &mut Tape, ctx: &mut CaseCtx) {
                 ctx.fail(format!("clone-panic@{}", p.loc), p.msg);
                 return;
             }
+        }
+    }
+    // a clone that is refused (an address the store does not hold) must leave no trace: what follows is judged as usual
+    if t.chance(40) {
+        let bogus = d.data_size() + 1000;
+        if let Ok(Ok(_)) = guard("clone", || d.clone_data(bogus)) {
+            ctx.class("clone-of-an-address-outside-the-store-accepted");
+        } else {
+            ctx.class("refused-clone-before-optimize");
         }
     }
     let before = snapshot(&d, &g.symbols);
